@@ -191,3 +191,18 @@ CLAIMS["C02"] = {
             "2020-12 meta-schema and resolve every $ref; for every JSON document: schema-valid => validate() true and no undeclared key; exact null-free member => schema-valid; types with Date/bigint/Map/Set/typed arrays must throw.",
     "note": "Trusted: python jsonschema and the reference's strict membership. Formats are annotations for jsonschema (not asserted), so format-typed strings/numbers are judged on their base type only by the schema side.",
 }
+
+# ------------------------------------------------------------------------------------------ C16
+SPEC["C16"] = {
+    "engine": "node",
+    "rule": "cases = (set of 2-5 parsers of one generated program sharing named / recursive / discriminated types, one refPathTemplate configuration, a call sequence): all permutations for sets of <= 4 parsers "
+            "(24 random orders beyond) plus 6 sequences with repetitions, each on one SchemaPrintingContext, compared with a fresh context per parser. evaluations = sequences run. "
+            "distinct_nontrivial = distinct (set size, constructor kinds, configuration) combinations",
+    "floor": {"quick": 3000, "thorough": 100000},
+}
+CLAIMS["C16"] = {
+    "technique": "history monitor over recorded schemaWithContext() call sequences: the exported definition table after every order / repetition is compared with the fresh-context table (offline checker over recorded states)",
+    "text": "For every parser set all call orders (<= 4 parsers: all permutations) and sequences with repetitions are replayed on one SchemaPrintingContext of the real client; after each sequence the exported definitions "
+            "must equal those of any other sequence, each definition must equal what a fresh context produces, none may be empty or still marked in progress, and every $ref of every returned schema and definition must resolve.",
+    "note": "Reads the erased-private inProgressDefinitions field. Types JSON Schema cannot express are skipped (C02 covers the throw). Schema/validator agreement for the shared context is C02's oracle (contextual mode).",
+}
